@@ -14,6 +14,7 @@ package h2sched_test
 import (
 	"bytes"
 	"fmt"
+	"math/big"
 	"os"
 	"sort"
 	"strings"
@@ -41,19 +42,20 @@ type xfer struct {
 }
 
 type svcPlan struct {
-	id         types.ServiceID
-	xfers      []xfer
-	yield      bool
-	yieldItems bool // the yielded hash is taken from the items of the invocation (differs from round to round)
-	bless      bool // manager re-blesses (changes privileges)
-	assign     int  // core to re-assign (−1: none)
-	blob       []byte
-	codeH      types.OpaqueHash
-	meta       []byte
-	fetches    int
-	peek       types.ServiceID   // service whose info is read and stored (0: none)
-	ejects     []types.ServiceID // zombie services this one ejects (before its transfers)
-	creates    int               // services this one creates (merged into the posterior accounts from several results)
+	id          types.ServiceID
+	xfers       []xfer
+	yield       bool
+	yieldItems  bool // the yielded hash is taken from the items of the invocation (differs from round to round)
+	bless       bool // manager re-blesses (changes privileges)
+	assign      int  // core to re-assign (−1: none)
+	blob        []byte
+	codeH       types.OpaqueHash
+	meta        []byte
+	fetches     int
+	peek        types.ServiceID   // service whose info is read and stored (0: none)
+	ejects      []types.ServiceID // zombie services this one ejects (before its transfers)
+	creates     int               // services this one creates (merged into the posterior accounts from several results)
+	preimageOps int               // 0 none, 1 solicit, 2 solicit + provide, 3 solicit + provide + forget (all in one invocation)
 }
 
 type scenario struct {
@@ -145,6 +147,26 @@ func buildProgram(p *svcPlan, nCores int, all []types.ServiceID) []byte {
 		a.LoadImm64(8, d.Put(q))
 		a.LoadImm64(9, uint64(all[0]))
 		a.Ecalli(15)
+	}
+	if p.preimageOps > 0 {
+		// solicit a preimage of the service's own, provide it in the same invocation and - in the third variant -
+		// forget the still-empty request again before the round integrates the provided blobs
+		blob := append([]byte("h2-preimage-of-"), u32le(uint32(p.id))...)
+		hp := d.Put(func() []byte { h := h256(blob); return h[:] }())
+		a.LoadImm64(7, hp)
+		a.LoadImm64(8, uint64(len(blob)))
+		a.Ecalli(23) // solicit
+		if p.preimageOps >= 2 {
+			a.LoadImm64(7, ^uint64(0)) // self
+			a.LoadImm64(8, d.Put(blob))
+			a.LoadImm64(9, uint64(len(blob)))
+			a.Ecalli(26) // provide
+		}
+		if p.preimageOps >= 3 {
+			a.LoadImm64(7, hp)
+			a.LoadImm64(8, uint64(len(blob)))
+			a.Ecalli(24) // forget
+		}
 	}
 	for k := 0; k < p.creates; k++ {
 		ch := h256(append(u32le(uint32(p.id)), byte(k), 0xC7))
@@ -254,6 +276,9 @@ func genScenario(t *sim.Tape) *scenario {
 		}
 		p.yield = t.Bool("yield")
 		p.yieldItems = t.Bool("yield_from_items")
+		if t.Prob(1, 3, "preimage_ops") {
+			p.preimageOps = 1 + t.Choose(3, "preimage_ops_kind")
+		}
 		if t.Prob(1, 3, "creates_services") {
 			p.creates = 1 + t.Choose(2, "ncreates")
 		}
@@ -492,6 +517,7 @@ func (a arm) String() string {
 }
 
 type armResult struct {
+	accounts  types.ServiceAccountState // accounts after the round (for the round-level conservation / footprint oracles)
 	lines     []string
 	err       string
 	steps     int
@@ -613,8 +639,10 @@ func runArm(tt *testing.T, r *sim.Run, sc *scenario, a arm) (res armResult) {
 		if done {
 			if sc.viaIntegration {
 				res.lines = canonIntegration(cs)
+				res.accounts = cs.GetIntermediateStates().GetDeltaDoubleDagger()
 			} else {
 				res.lines = canonOutput(out, cs)
+				res.accounts = out.PartialStateSet.ServiceAccounts
 			}
 		}
 	})
@@ -633,6 +661,13 @@ func runOne(tt *testing.T, r *sim.Run) {
 	k := 5
 	if r.Tier == "thorough" {
 		k = 12
+	}
+	if r.Prop != "" && r.Prop != "C22" {
+		k = 1 // this run serves another property through the round-level oracles below
+	}
+	roundOracles(r, sc, base, "baseline {workers=1 map=sorted sched=first}")
+	if r.Violated() {
+		return
 	}
 	maxIn := 0
 	for _, v := range sc.maxIn {
@@ -675,6 +710,10 @@ func runOne(tt *testing.T, r *sim.Run) {
 		}
 		if res.stuck || res.lines == nil {
 			r.Violate(prop, "stuck", "round-does-not-finish-under-schedule", "arm %v: the accumulation round did not finish (goroutines blocked) although the baseline arm did; scenario %s", a, sc.desc)
+			return
+		}
+		roundOracles(r, sc, res, a.String())
+		if r.Violated() {
 			return
 		}
 		if res.err != base.err {
@@ -723,6 +762,52 @@ func runOne(tt *testing.T, r *sim.Run) {
 	}
 	r.ShapeStr(strings.Join(base.lines, "|"))
 	r.Summary("%s; baseline: %d schedule decisions; %s", sc.desc, base.steps, firstLines(base.lines, 3))
+}
+
+// roundOracles: what holds for one accumulation invocation (C08 conservation, C09 footprint accounting) must also
+// hold for what a whole round - parallel invocations, the merge of their results, delivery of deferred transfers in
+// later rounds, integration of provided preimages - leaves in the accounts.
+func roundOracles(r *sim.Run, sc *scenario, res armResult, armName string) {
+	if res.accounts == nil || res.err != "" {
+		return
+	}
+	if r.Wants("C08") {
+		before, after := new(big.Int), new(big.Int)
+		for _, a := range sc.mkInput().InitPartialStateSet.ServiceAccounts {
+			before.Add(before, new(big.Int).SetUint64(uint64(a.ServiceInfo.Balance)))
+		}
+		for _, a := range res.accounts {
+			after.Add(after, new(big.Int).SetUint64(uint64(a.ServiceInfo.Balance)))
+		}
+		if after.Cmp(before) > 0 {
+			r.Violate("C08", "sum-increased", "round-sum-of-balances-increased", "arm %s: after the accumulation round (no deferred transfer is left undelivered) the balances sum to %s, before it to %s; scenario %s", armName, after, before, sc.desc)
+			return
+		}
+		r.Count("probe:round_conservation_checked", 1)
+	}
+	if r.Wants("C09") {
+		var ids []types.ServiceID
+		for id := range res.accounts {
+			ids = append(ids, id)
+		}
+		sort.Slice(ids, func(i, j int) bool { return ids[i] < ids[j] })
+		for _, id := range ids {
+			a := res.accounts[id]
+			items := uint64(2*len(a.LookupDict) + len(a.StorageDict))
+			octets := uint64(0)
+			for k := range a.LookupDict {
+				octets += 81 + uint64(k.Length)
+			}
+			for k, v := range a.StorageDict {
+				octets += 34 + uint64(len(k)) + uint64(len(v))
+			}
+			if uint64(a.ServiceInfo.Items) != items || uint64(a.ServiceInfo.Bytes) != octets {
+				r.Violate("C09", "footprint", "round-footprint-differs-from-entries", "arm %s: after the accumulation round account %d records items=%d octets=%d, its %d lookup and %d storage entries give items=%d octets=%d; scenario %s", armName, id, a.ServiceInfo.Items, a.ServiceInfo.Bytes, len(a.LookupDict), len(a.StorageDict), items, octets, sc.desc)
+				return
+			}
+		}
+		r.Count("probe:round_footprint_checked", 1)
+	}
 }
 
 func firstLines(l []string, n int) string {
